@@ -736,5 +736,8 @@ func (d *decoder) readDenseAttrs(ai *attrInfo, owner string) []Attr {
 		}
 		out = append(out, a)
 	}
+	if h.ok && uint64(len(t.records)) != h.nObjects {
+		d.finding("frhp-object-count", ai.heap, "heap header counts %d objects, attribute name index has %d records", h.nObjects, len(t.records))
+	}
 	return out
 }
